@@ -262,6 +262,21 @@ StepTick(K) ==
   LET K1 == TickMs([K EXCEPT !.out = <<>>])
       c == CanBlockUpdate(K1)
   IN [K |-> c.K, idle |-> IsIdle(K1), cb |-> c.cb]
+
+\* ----- C07 part 1: the inductive core of "idle blocking is unobservable" ----------------------
+\* Fut(k) = everything of k that can influence the future.  The outputs of the last step are not state; the history
+\* ages are only ever compared with thresholds <= switch_max_key_timing (key-timing lt/gt, src: action/switch.rs:433-445:
+\* `age <= Q(t)` / `age > Q(t)`, Q rounds down), and a comparison happens at least one tick after a may-block decision
+\* (the press is dequeued by a tick, after tick_hist), so ages at or above the maximum are indistinguishable.
+FutCapAges(h) == [i \in DOMAIN h |-> [h[i] EXCEPT !.age = Min(@, Opts.switch_max_key_timing)]]
+Fut(k) == [k EXCEPT !.out = <<>>, !.L.hk = FutCapAges(@), !.L.hi = FutCapAges(@)]
+\* a tick taken where the loop may block emits nothing and is a stutter on Fut; by induction over the gap length this
+\* is "K ticks are unobservable" for every K
+IdleTickIsStutter(k) ==
+  CanBlockUpdate(k).cb => LET s == StepTick(k) IN s.K.out = <<>> /\ Fut(s.K) = Fut(k)
+\* the may-block states covered by the recorded findings of C07 (known_findings.json): the rapid-event pause is still
+\* running; a one-shot end is pending with timeout 0 (src: mod.rs is_idle `oneshot.timeout == 0 || keys.is_empty()`)
+IdleTickKnownDefect(k) == k.L.os.pticks > 0 \/ (k.L.os.timeout = 0 /\ k.L.os.keys # <<>>)
 \* ----- projection on what the harness can observe without hooks (binding B) ---------------
 ProjSt(s) ==
   CASE s.t = "nk" -> <<"nk", s.a, s.x, s.y, s.f>>
